@@ -14,7 +14,7 @@ PLAN = {
                 mc_t=[("single", 6, 4), ("singlecancel", 3, 4), ("flowerr", 2, 4)],
                 gen_q=("single,plain,err", 200), gen_t=("single,plain,err", 5000)),
     "C03": dict(mc_q=[("flow2", 1, 4), ("rerun", 1, 4), ("flow2empty", 1, 3)],
-                mc_t=[("flow2", 1, 6), ("rerun", 1, 5), ("flow2empty", 1, 5), ("nest", 1, 4)],
+                mc_t=[("flow2", 1, 6), ("rerun", 1, 5), ("flow2empty", 1, 5), ("nest", 1, 3)],
                 gen_q=("plain,nest", 200), gen_t=("plain,nest,err", 4000)),
     "C04": dict(mc_q=[("flowerr", 2, 3), ("nesterr", 2, 3), ("nilstart", 1, 3), ("flowbatch", 2, 4)],
                 mc_t=[("flowerr", 2, 5), ("nesterr", 2, 4), ("nilstart", 1, 4), ("single", 4, 4), ("flowbatch", 2, 5)],
@@ -22,7 +22,7 @@ PLAN = {
     "C05": dict(mc_q=[("singlecancel", 2, 4), ("flowcancel", 2, 3), ("flowbatch", 2, 4)],
                 mc_t=[("singlecancel", 3, 4), ("flowcancel", 2, 4), ("flowbatch", 2, 5)],
                 gen_q=("cancelenum,cancel", 60), gen_t=("cancelenum,cancel", 800)),
-    "C10": dict(mc_q=[("nest", 1, 3), ("nesterr", 2, 3)],
+    "C10": dict(mc_q=[("nestsmall", 1, 4), ("nesterr", 2, 3)],
                 mc_t=[("nest", 1, 5), ("nest3", 1, 5), ("nesterr", 2, 4)],
                 gen_q=("nest", 250), gen_t=("nest,err", 4000)),
     "C17": dict(mc_q=[("single", 2, 4), ("singleeres", 2, 4), ("singlenil", 2, 4)],
@@ -79,7 +79,9 @@ def collect(pid, tier, seed, d, binp):
 
     # 2. replay the behaviours on the real library (built from /repo's working tree), run random scenarios
     hist = os.path.join(d, "hist.ndjson")
-    run_harness(binp, ["engine", "--scn", scnp, "--out", hist, "--seed", str(seed), "--count", str(count), "--modes", modes])
+    cap = 5000 if tier == "quick" else 100000
+    run_harness(binp, ["engine", "--scn", scnp, "--out", hist, "--seed", str(seed), "--count", str(count), "--modes", modes,
+                       "-x", "maxscn=%d" % cap])
 
     # 3. verdict: TLC evaluates the property's predicate on every recorded history
     fails, drifts, summ = judge_histories(d, "TPEngine", hist, pid, shards=8)
